@@ -217,6 +217,29 @@ def other_kind(v):
     return ['marker']
 
 
+ZONE_POOL = ['UTC', 'London', 'Lisbon', 'Paris', 'Berlin', 'New_York', 'Toronto', 'Chicago', 'Winnipeg', 'Tokyo', 'Seoul',
+             'Kolkata', 'Colombo', 'Sydney', 'Melbourne', 'Los_Angeles', 'Vancouver', 'Denver', 'Edmonton', 'Dubai', 'Muscat']
+
+
+def other_zones(v):
+    """(label, zone name) - a mapped zone with another UTC offset at the instant of v, and one with the same offset"""
+    import pytz
+    from hszinc import zoneinfo
+    tzmap = zoneinfo.get_tz_map()
+    utc = pytz.utc.localize(model.dt_parse(v[1]))
+    if v[3] not in tzmap:
+        return
+    own = utc.astimezone(pytz.timezone(tzmap[v[3]])).utcoffset()
+    seen = set()
+    for z in ZONE_POOL:
+        if z == v[3] or z not in tzmap:
+            continue
+        how = 'same-offset' if utc.astimezone(pytz.timezone(tzmap[z])).utcoffset() == own else 'other-offset'
+        if how not in seen:
+            seen.add(how)
+            yield how, z
+
+
 def changed(v):
     """same kind, content differing beyond the tolerance; None if not applicable"""
     k = v[0]
@@ -240,6 +263,11 @@ def changed(v):
         return ['date', v[1], v[2], 1 if v[3] != 1 else 2]
     if k == 'time':
         return ['time', v[1], (v[2] + 1) % 60, v[3], v[4]]
+    if k == 'dt':
+        import datetime
+        t = model.dt_parse(v[1])
+        t = t + datetime.timedelta(days=1) if t.year < 9000 else t - datetime.timedelta(days=1)
+        return ['dt', model.dt_text(t), v[2], v[3]]
     if k == 'coord':
         return ['coord', v[1], v[2] + 1.0 if v[2] < 100 else v[2] - 1.0]
     if k == 'list':
@@ -284,8 +312,11 @@ def edits(m):
             yield 'colmeta-removed', ['grid', ver, meta, ncols, rows]
             break
     for ri, r in enumerate(rows):
+        # one cell per row, the ri-th non-null one (so later rows and later columns are edited too, not only the first cell
+        # of the grid: an implementation may treat the first value of a column differently from the ones below it)
+        nonnull = [xi for xi, (c, v) in enumerate(r) if v[0] != 'null']
         for xi, (c, v) in enumerate(r):
-            if v[0] == 'null':
+            if not nonnull or xi != nonnull[ri % len(nonnull)]:
                 continue
             ok = other_kind(v)
             if ver == '3.0' or ok[0] not in model.V3_ONLY:
@@ -309,9 +340,14 @@ def edits(m):
                     ch2 = [v[0], v[1] + delta] + v[2:]
                     nr = r[:xi] + [[c, ch2]] + r[xi + 1:]
                     yield 'cell-content-int:%s' % v[0], ['grid', ver, meta, cols, rows[:ri] + [nr] + rows[ri + 1:]]
+            if v[0] == 'dt' and v[3] is not None:
+                # the same instant in another zone is another date-time (the zone is part of the value and comes back
+                # from every round trip): once a zone with another offset, once one that shares the offset just then
+                for how, z in other_zones(v):
+                    nr = r[:xi] + [[c, ['dt', v[1], v[2], z]]] + r[xi + 1:]
+                    yield 'cell-content-zone:%s' % how, ['grid', ver, meta, cols, rows[:ri] + [nr] + rows[ri + 1:]]
             nr = r[:xi] + r[xi + 1:]
             yield 'cell-removed', ['grid', ver, meta, cols, rows[:ri] + [nr] + rows[ri + 1:]]
-            return
 
 
 def check_grid(case, excl=frozenset(), acc=None):
